@@ -61,7 +61,8 @@ def generate(seed, tier):
         rng.shuffle(o)
         orders.append(o)
     return {"tb": tb, "mode": gen_mode(rng), "orders": orders,
-            "shuffle": rng.randrange(1 << 30)}
+            "shuffle": rng.randrange(1 << 30),
+            "first_mode": gen_mode(rng) if rng.random() < 0.35 else None}
 
 
 def modesig(mode):
@@ -77,14 +78,21 @@ def ops_for(sc, order):
         ops.append(["build", "t", sc["tb"][j], sc["shuffle"] + j])
         ops.append(["extract", "t", "g"])
     ops.append(["gdump", "g"])
+    if sc.get("first_mode"):
+        # the caller binarizes the same extracted grammar twice (e.g. to write two grammar
+        # types): the second result must not depend on the first call
+        fm = sc["first_mode"]
+        ops.append(["gbin", "g", "b0", fm["reordering"], fm["markov"]])
     ops.append(["gbin", "g", "b", sc["mode"]["reordering"], sc["mode"]["markov"]])
     ops.append(["gdump", "b"])
+    if sc.get("first_mode"):
+        ops.append(["gdump", "g"])
     return ops
 
 
 def execute(sc, sim):
     st = cm.Stats()
-    st.declare("rule_count_above_1", "rank_above_2_rule", "markov_label_collision",
+    st.declare("second_binarization_of_same_grammar", "rule_count_above_1", "rank_above_2_rule", "markov_label_collision",
                "same_rule_two_vertical_contexts", "order_changes_dict_order")
     viols = []
     tb = sc["tb"]
@@ -114,6 +122,18 @@ def execute(sc, sim):
                                  msg=bad[0].get("msg"), mode=sc["mode"]))
             break
         dumps = [r["ok"] for r in recs if r["op"] == "gdump"]
+        if sc.get("first_mode"):
+            st.probe("second_binarization_of_same_grammar")
+            st.fault("history")
+            if len(dumps) == 3:
+                g_after, l_after = refgram.from_dump(dumps[2])
+                if g_after != refg or l_after != refl:
+                    viols.append(cm.viol("C08/input-grammar-changed-by-binarize/%s"
+                                         % modesig(sc["first_mode"]), first=sc["first_mode"],
+                                         second=sc["mode"],
+                                         diff=refgram.diff_grammars(refg, g_after)))
+                    break
+                dumps = dumps[:2]
         if len(dumps) != 2:
             continue
         raw, _ = refgram.from_dump(dumps[0])
@@ -182,6 +202,10 @@ def shrink_candidates(sc):
             del c["tb"][i]
             c["orders"] = [[j - (1 if j > i else 0) for j in o if j != i] for o in sc["orders"]]
             yield c
+    if sc.get("first_mode"):
+        c = model.clone(sc)
+        c["first_mode"] = None
+        yield c
     m = sc["mode"]["markov"]
     if m is not None:
         for key in ("v", "h"):
